@@ -8,7 +8,7 @@ EXTENDS AtsMC
 CONSTANT Tier
 
 P(k) == Dec(k * SCALE, "plain")
-R(n) == Dec(n, "plain")
+R(n) == Dec(n * 100, "plain")          \* a rate given in units of 0.0001
 
 Rates == IF Tier = "quick" THEN {R(1000), R(2500), R(3000)}
          ELSE {R(0), R(500), R(1000), R(2500), R(3000), R(3333), R(5000), R(10000)}
